@@ -125,6 +125,9 @@ def _run_forked(obs, jobs):
                 if pid == 0:
                     code = 0
                     try:
+                        # what the code under test prints (progress bars, colour codes without newline) goes to stderr: stdout carries the verdict lines only
+                        sys.stdout.flush()
+                        os.dup2(2, 1)
                         _, v = _run_one(i)
                         v.cex, v.replay = jsonable(v.cex), jsonable(v.replay)
                         with open(path + ".tmp", "wb") as f:
@@ -330,6 +333,11 @@ def run_property(prop: str, obs: list[Ob], *, tier: str, seed: int, level: str,
     with open(os.path.join(VERIF, "evidence", f"{prop}.json") if write_evidence else os.devnull, "w") as f:
         json.dump(jsonable(ev), f, indent=1)
 
+    # the code under test may leave an unterminated line (colour codes) on stderr: when both streams are captured together the verdict lines
+    # must still start at the beginning of a line
+    sys.stderr.write("\n")
+    sys.stderr.flush()
+    sys.stdout.flush()
     for l in lines:
         print(l)
     for s in selfcheck_fail:
